@@ -38,6 +38,21 @@ class SubMsgSite:
             return int(payload(self.id)[0])
         return None
 
+    def id_options(self):
+        """reply ids this construction may carry when the id is not a literal in this frame: the default of an
+        `unwrap_or(<caller's override>, default)` counts"""
+        out = set()
+
+        def rec(v, d=0):
+            if tag(v) == "int":
+                out.add(int(payload(v)[0]))
+            elif tag(v) == "call" and str(payload(v)[0]).endswith("::unwrap_or") and len(kids(v)) == 2 and d < 4:
+                rec(kids(v)[1], d + 1)
+                if tag(kids(v)[0]) == "agg" and kids(kids(v)[0]):
+                    rec(kids(kids(v)[0])[0], d + 1)
+        rec(self.id)
+        return out
+
     def reply_on_name(self):
         if tag(self.reply_on) == "agg":
             return payload(self.reply_on)[1]
